@@ -60,7 +60,7 @@ func randCompose(rng *rand.Rand, n int) cmpCfg {
 	}
 	rich := rng.Intn(3) > 0 // two thirds of the pipelines use hooks, variations and contexts
 	for k := range c.UpFails {
-		c.UpFails[k] = rich && rng.Intn(5) == 0
+		c.UpFails[k] = rich && rng.Intn(3) == 0
 	}
 	for s := 1; s <= n; s++ {
 		c.Deps[s-1] = []int{}
@@ -388,7 +388,13 @@ func ComposeCheck(env *core.Env, rep *core.Report, k int, models ...string) map[
 				case "UpBeforeUse", "DownAfterAll", "OneUpAtATime":
 					prop = "C14"
 				}
-				for _, p := range []string{prop, "C03"} {
+				props := []string{prop, "C03"}
+				if cix, ok := ev["c"].(int); ok && cix >= 1 && cix <= len(out[bad].cfg.UpFails) && out[bad].cfg.UpFails[cix-1] && ev["role"] != "up" && ev["role"] != "down" {
+					// a job of a context whose start-up failed: a task ran that the outcome of `up` alone
+					// says must fail - the stage outcomes no longer follow from the graph and the outcomes
+					props = append(props, "C02")
+				}
+				for _, p := range props {
 					if p == "C03" && ev["e"] != "done" {
 						continue
 					}
